@@ -747,5 +747,7 @@ def run(ctx) -> None:
     # "use the key whose kid equals the token's kid": the kid is looked up in the union of all header positions of the recipient
     from .c04 import r04_4
     ctx.guard_as("R14.13", r04_4)
+    from .c11 import r11_11 as _r11_11
+    ctx.guard_as("R14.19", _r11_11)  # "uses exactly the key named by kid": the kid a key is filed under is the one its JWK / the caller's parameters give, in the reference precedence
     from .c13 import r13_4
     ctx.guard_as("R14.9", r13_4)  # "every key in a set has a kid" of its own: ensure_kid stores the thumbprint into the key's own dict only
